@@ -22,7 +22,7 @@ ASSUME = ['vf/refjson.Writer only emits spellings of DESIGN.md Appendix A.2', 's
 _me = sys.modules[__name__]
 
 FORMS = ['str', 'str-unicode', 'bytes-utf8', 'bytes-utf16', 'bytes-latin1', 'object', 'array-object', 'array-str',
-         'bytes-cp1252', 'bytes-shift_jis', 'bytes-utf16le', 'bytes-utf8', 'str', 'object']
+         'bytes-cp1252', 'bytes-shift_jis', 'bytes-utf16le', 'bytes-utf8', 'str', 'object-aliased']
 BYTE_FORMS = {'bytes-utf8': 'utf-8', 'bytes-utf16': 'utf-16', 'bytes-latin1': 'latin-1', 'bytes-cp1252': 'cp1252',
               'bytes-shift_jis': 'shift_jis', 'bytes-utf16le': 'utf-16-le'}
 
@@ -79,10 +79,15 @@ def judge_doc(ns, seed, script, form):
     array = form.startswith('array') or len(ns) != 1
     obj = w.doc(ns, array=array)
     art = {'trace': w.trace, 'log': w.log, 'snapshots': 0}
+    if form == 'object-aliased' and isinstance(obj, dict) and obj.get('rows'):
+        # a caller-built document may use one row object several times: it denotes that row several times
+        obj['rows'].append(obj['rows'][-1])
+        obj['rows'].insert(0, obj['rows'][-1])
+        ns = [n[:4] + ((n[4][-1],) + n[4] + (n[4][-1],),) for n in ns]
     art['text'] = json.dumps(obj)
     single = not array
     try:
-        if form in ('object', 'array-object'):
+        if form in ('object', 'array-object', 'object-aliased'):
             keep = obj
             snap_text = json.dumps(obj)
             snap_ids = container_ids(obj)
